@@ -11,7 +11,7 @@ import (
 func init() {
 	register(&propDef{
 		ID:          "C09",
-		Explanation: "Gate, ownership and error-propagation rules for the exporter's send path, decided on SSA: (1) R-GATE.sanity: in SendSet every send is dominated by a range loop over set.GetRecords() in which, guarded only by the set type being Data, dataRecSanityCheck is called on the loop's own element (every record, not a sample) and its error edge leads only to error returns; (2) the sanity function contains the three tests (template known, field count equal, minimum length), each failing edge returning an error; (3) R-GATE.size: CreateIPFIXMsg compares MsgHeaderLength + set.GetSetLength() with MaxSocketMsgSize so that exactly lengths > 65535 take the error edge, and the buffer allocation of that same length is dominated by the other edge; (4) the sender writes only the slice returned by CreateIPFIXMsg on its err == nil edge; R-OWNER: connToCollector.Write has exactly the IPFIX and the JSON send site; (5) ordering: a template is inserted into the exporter's template map only on the err == nil edge of the send; (6) R-ERR fidelity: an error of the per-element encoder must propagate to the caller (its non-nil edge returns an error), and inside the encoder every raw copy of a caller-supplied byte value is preceded by a test of the source (nil test for To4/To16, length test for fixed-length values, or a length prefix). Not decided: that a failing Write transmitted nothing (kernel), well-formedness of later sends beyond C02/C08's per-call rules. Later additions: a nil return after the Write only where the Write's own error is nil; the prefix scheme and length accounting of C15 (value fidelity at the 255 boundary).",
+		Explanation: "Gate, ownership and error-propagation rules for the exporter's send path, decided on SSA: (1) R-GATE.sanity: in SendSet every send is dominated by a range loop over set.GetRecords() in which, guarded only by the set type being Data, dataRecSanityCheck is called on the loop's own element (every record, not a sample) and its error edge leads only to error returns; (2) the sanity function contains the three tests (template known, field count equal, minimum length), each failing edge returning an error; (3) R-GATE.size: CreateIPFIXMsg compares MsgHeaderLength + set.GetSetLength() with MaxSocketMsgSize so that exactly lengths > 65535 take the error edge, and the buffer allocation of that same length is dominated by the other edge; (4) the sender writes only the slice returned by CreateIPFIXMsg on its err == nil edge; R-OWNER: connToCollector.Write has exactly the IPFIX and the JSON send site; (5) ordering: a template is inserted into the exporter's template map only on the err == nil edge of the send; (6) R-ERR fidelity: an error of the per-element encoder must propagate to the caller (its non-nil edge returns an error), and inside the encoder every raw copy of a caller-supplied byte value is preceded by a test of the source (nil test for To4/To16, length test for fixed-length values, or a length prefix). Not decided: that a failing Write transmitted nothing (kernel), well-formedness of later sends beyond C02/C08's per-call rules. Later additions: a nil return after the Write only where the Write's own error is nil; the prefix scheme and length accounting of C15 (value fidelity at the 255 boundary). Round-five additions: the encoder/decoder agreement per data type (C15's codec table) is imported: an address value must not be normalised across families.",
 		Assume:      []string{"net.Conn.Write semantics", "entities.Set/Record accessors are the library's own implementations"},
 		Run:         runC09,
 	})
